@@ -137,4 +137,77 @@ class K3Adapter(object):
         return best
 
 
+class CaseAdapter(object):
+    """Harnesses whose unit is an independent case: module.run(prop, tier, seed, n, corpus) ->
+    dict(cases, reals, mismatches, oracle, stats, tally, hist); module.nontrivial(case, real) -> bool."""
+    module_name = None
+    label = None
+    N = dict(quick=1000, thorough=10000)
+    SEARCH = dict(quick=2000, thorough=20000)
+    rule = ''
+    assumptions = []
+    required_hist = {}
+
+    def mod(self):
+        return __import__(self.module_name)
+
+    def n_cases(self, prop, tier):
+        n = self.N[tier]
+        return n.get(prop, n.get('default')) if isinstance(n, dict) else n
+
+    def _result(self, prop, r):
+        m = self.mod()
+        findings = [dict(f, case=r['cases'][f['case_index']]) for f in r['oracle']]
+        mism = [dict(x, case=r['cases'][x['case_index']]) for x in r['mismatches']]
+        nontrivial = set()
+        for c, real in zip(r['cases'], r['reals']):
+            if m.nontrivial(c, real):
+                nontrivial.add(case_hash(c))
+        cov = dict(evaluations=int(r['stats']['cases']), distinct_nontrivial=len(nontrivial), rule=self.rule,
+                   samples=[r['cases'][-1]] if r['cases'] else [], traces_validated_against_impl=int(r['stats']['cases']),
+                   corpus_cases=int(r['stats']['corpus_cases']), comparison=r['tally'].as_dict(),
+                   input_distribution={k: int(v) for k, v in sorted(r['hist'].items())})
+        for k, v in r['stats'].items():
+            if k not in ('cases', 'corpus_cases'):
+                cov[k] = int(v)
+        if r['stats']['cases'] - r['stats']['corpus_cases'] >= 200:
+            missing = [k for k in self.required_hist.get(prop, []) if r['hist'].get(k, 0) == 0]
+            if missing:
+                raise common.Infra('generator missed the classes %s' % missing)
+        return dict(findings=findings, mismatches=mism, coverage=cov, harness=self.label, assumptions=list(self.assumptions))
+
+    def run(self, prop, tier, seed):
+        r = self.mod().run(prop, tier, seed, self.n_cases(prop, tier), corpus=load_corpus(prop))
+        return self._result(prop, r)
+
+    def replay(self, prop, payload):
+        case = payload.get('case') or payload
+        r = self.mod().run(prop, 'quick', 0, 0, corpus=[case])
+        res = self._result(prop, r)
+        return dict(findings=res['findings'], mismatches=res['mismatches'])
+
+    def search(self, prop, tier, seed, mismatches):
+        m = self.mod()
+        r = m.run(prop, tier, seed + 7919, self.SEARCH[tier], corpus=[])
+        return [dict(f, case=r['cases'][f['case_index']]) for f in r['oracle']][:5]
+
+
+class K4Adapter(CaseAdapter):
+    module_name = 'k4'
+    label = 'K4 (harness/k4.py)'
+    N = dict(quick={'C10': 6000, 'C11': 6000, 'C09': 1000, 'C19': 1500}, thorough={'C10': 60000, 'C11': 60000, 'C09': 10000, 'C19': 15000})
+    rule = ('seeded structure-aware cases (harness/k4.py): sizer inputs with zero/tiny/negative weights, missing prices, floor '
+            'boundaries, fee rates incl. 0, 1 and >1; PCM calls against a real broker with holdings outside the universe and '
+            'alpha keys outside both; universe queries at entry-1s/entry/entry+60s; non-trivial = a non-empty, accepted input '
+            'with a non-zero result (sizers), a call with existing holdings (PCM), a non-empty universe/weight map; distinct by SHA-256')
+    assumptions = ['equity and prices are stubs for the sizers (their sources are C02/C06)',
+                   'target quantities are compared exactly with the Float-carrier model; a difference that the exact Rat-carrier '
+                   'model explains as float noise at a floor/trunc boundary is counted as near-discontinuity']
+    required_hist = {'C10': ['dw:nonzero-fee', 'dw:out:ValueError', 'dw:new:ValueError', 'dw:nonzero-target'],
+                     'C11': ['ls:nonzero-fee', 'ls:out:ValueError', 'ls:new:ValueError', 'ls:short-target'],
+                     'C09': ['pcm:held-outside-universe', 'pcm:alpha-outside-both', 'pcm:sell-orders'],
+                     'C19': ['dyn:entry-exactly-now', 'dyn:no-entry-date']}
+
+
 PROPS = {p: K3Adapter for p in ('C01', 'C02', 'C03', 'C04', 'C05', 'C15')}
+PROPS.update({p: K4Adapter for p in ('C09', 'C10', 'C11', 'C19')})
